@@ -13,7 +13,8 @@ package main
 // validation.ValidateQuery, validation.ValidateLimit, config.DefaultConfig/GetDatabasePath,
 // context.NewAnalyzer().AnalyzeCurrentDirectory, recovery.NewDatabaseRecovery(DefaultRetryConfig()).
 // LoadDatabaseWithFallback, db.SearchUniversal, recovery.NewSearchRecovery().RecoverFromSearchFailure,
-// database.FilterResults — and reports every intermediate value (ids = index into db.Commands, float bits,
+// the gate predicate passesFilters that database.FilterResults applies (through the verif hook VerifPassesFilters, so the
+// expectation does not depend on FilterResults itself) — and reports every intermediate value (ids = index into db.Commands, float bits,
 // the text of every entry that appears in an answer together with the strconv / encoding/json renderings the
 // Lean driver takes as oracle values).  It deliberately does NOT truncate, re-sort, render or touch the history:
 // those are the CLI's own steps, which the check compares against `Model/Cli.lean` and the monitors.
@@ -57,7 +58,7 @@ type c17Hit struct {
 	Score     float64 `json:"score"`
 	F1        string `json:"f1"`         // fmt.Sprintf("%.1f", score)
 	JSONScore string `json:"json_score"` // json.Marshal(score)
-	Pass      bool   `json:"pass"`       // kept by database.FilterResults under the CLI's options
+	Pass      bool   `json:"pass"`       // passes the platform / pipeline gate (passesFilters) under the CLI's options
 }
 
 type c17Doc struct {
@@ -226,7 +227,7 @@ func c17one(req *c17Req, scratch *os.File) (resp c17Resp) {
 		}
 		jb, _ := json.Marshal(r.Score)
 		return c17Hit{ID: id, Bits: fmt.Sprintf("%016x", math.Float64bits(r.Score)), Score: r.Score, F1: fmt.Sprintf("%.1f", r.Score),
-			JSONScore: string(jb), Pass: len(database.FilterResults([]database.SearchResult{r}, opts)) == 1}
+			JSONScore: string(jb), Pass: r.Command != nil && database.VerifPassesFilters(r.Command, opts)}
 	}
 	results := db.SearchUniversal(clean, opts)
 	for _, r := range results {
